@@ -2,4 +2,7 @@ mod base;
 mod named_typed;
 
 pub use base::Type;
+#[cfg(feature = "verif")]
+#[doc(hidden)]
+pub use base::verif_hooks as verif_types;
 pub use named_typed::NamedTypedValue;
